@@ -807,12 +807,29 @@ func (c *Ctx) visitorSites(u *FuncUnit) (walker *FuncUnit, calls []*ast.CallExpr
 		return nil, nil
 	}
 	w := c.m.calleeUnit(at)
-	if w == nil || w.Lit != nil || w.Decl == nil || w.Body == nil {
+	if w == nil {
+		// walk := leafWalker(root); walk(func(…) bool {…}): the walker is the literal that a
+		// library function returns
+		if id, ok := ast.Unparen(at.Fun).(*ast.Ident); ok {
+			if def := c.m.resolveLocal(u.Parent, id); def != nil {
+				if mk, ok := ast.Unparen(def).(*ast.CallExpr); ok {
+					if cu := c.m.calleeUnit(mk); cu != nil && cu.Lit == nil {
+						if rets, all := returnExprs(cu); all && len(rets) == 1 {
+							if lit, ok := ast.Unparen(rets[0]).(*ast.FuncLit); ok {
+								w = c.m.LitUnit[lit]
+							}
+						}
+					}
+				}
+			}
+		}
+	}
+	if w == nil || w.Body == nil || w.Type == nil || w.Type.Params == nil {
 		return nil, nil
 	}
 	var pv *types.Var
 	k := 0
-	for _, f := range w.Decl.Type.Params.List {
+	for _, f := range w.Type.Params.List {
 		for _, nm := range f.Names {
 			if k == pi {
 				pv, _ = info.Defs[nm].(*types.Var)
